@@ -363,12 +363,193 @@ def run_models(ctx: core.Ctx) -> None:
                                                   + (" — all combinations" if ctx.tier != "quick" else " — seeded sample")}
     if ctx.tier != "quick":
         ctx.exhaustive = True
+    run_lower_affine(ctx)
+
+
+# ------------------------------------------------------------------------------------------------
+# lower-affine: operand binding and emitted operations  vs the Lean model `lower_affine`
+# ------------------------------------------------------------------------------------------------
+
+SITE_APPLY = "xdsl.transforms.lower_affine.LowerAffineApply.match_and_rewrite"
+ARITH_NAMES = {"arith.addi": "addi", "arith.muli": "muli", "arith.remsi": "remsi", "arith.floordivsi": "floordivsi",
+               "arith.ceildivsi": "ceildivsi"}
+
+
+def listing(ops: list[Any], operands: list[Any], results: list[Any]) -> str:
+    """canonical text of the operations the pass emitted: `a<i>` = operand i of the rewritten affine
+    operation, `t<j>` = result of the j-th emitted operation"""
+    from xdsl.dialects import arith
+
+    name: dict[int, str] = {}
+    for i, v in enumerate(operands):
+        name.setdefault(id(v), f"a{i}")
+    out = []
+    for j, o in enumerate(ops):
+        if isinstance(o, arith.ConstantOp):
+            out.append(f"const {o.value.value.data}")
+        else:
+            out.append(ARITH_NAMES.get(o.name, o.name) + " " + " ".join(name.get(id(x), "?") for x in o.operands))
+        if o.results:
+            name[id(o.results[0])] = f"t{j}"
+    return "ok " + ";".join(out) + " -> " + ",".join(name.get(id(v), "?") for v in results)
+
+
+def run_listing(text: str, xs: list[int]) -> int | None:
+    """value of the (single) result of a canonical listing on operand values `xs`; arith semantics on
+    unbounded integers, None when a division has a zero divisor or the listing is not understood"""
+    body, res = text[3:].split(" -> ")
+    tmps: list[int | None] = []
+
+    def val(n: str) -> int | None:
+        if n[0] == "a":
+            return xs[int(n[1:])]
+        if n[0] == "t" and int(n[1:]) < len(tmps):
+            return tmps[int(n[1:])]
+        return None
+
+    for ins in [i for i in body.split(";") if i]:
+        w = ins.split(" ")
+        if w[0] == "const":
+            tmps.append(int(w[1]))
+            continue
+        if len(w) != 3:
+            return None
+        a, b = val(w[1]), val(w[2])
+        if a is None or b is None:
+            return None
+        if w[0] == "addi":
+            tmps.append(a + b)
+        elif w[0] == "muli":
+            tmps.append(a * b)
+        elif b == 0:
+            return None
+        elif w[0] == "remsi":
+            tmps.append(abs(a) % abs(b) * (1 if a >= 0 else -1))
+        elif w[0] == "floordivsi":
+            tmps.append(a // b)
+        elif w[0] == "ceildivsi":
+            tmps.append(-((-a) // b))
+        else:
+            return None
+    return val(res)
+
+
+def main_ops(m: Any) -> tuple[Any, list[Any]]:
+    main = next(o for o in m.body.ops if getattr(o, "sym_name", None) is not None and o.sym_name.data == "main")
+    return main, list(main.body.blocks.first.ops)
+
+
+def apply_case(p: dict[str, Any]) -> tuple[str, str, str]:
+    """(model line, implementation line, prefix form of the map's expression as parsed)"""
+    from xdsl.dialects import affine, func
+
+    nd, ns = p["shape"]
+    m0, _ = proggen.parse_module_ctx(p["text"])
+    ap = next(o for o in m0.walk() if isinstance(o, affine.ApplyOp))
+    prefix = proggen.aff_prefix_of_xdsl(ap.map.data.results[0])
+    line = f"apply {nd} {ns} {prefix}"
+    m, exc = apply(p["text"], "lower-affine")
+    if m is None:
+        return line, "raise " + str(exc), prefix
+    try:
+        m.verify()
+    except Exception as e:  # noqa: BLE001
+        return line, "invalid " + core.exc_name(e), prefix
+    main, ops = main_ops(m)
+    args = list(main.body.blocks.first.args)
+    call = next(o for o in ops if isinstance(o, func.CallOp))
+    emitted = ops[: ops.index(call)]
+    return line, listing(emitted, [args[i] for i in p["order"]], list(call.arguments)), prefix
+
+
+def map_case(rng: Any, gen: Any) -> tuple[str, str, str]:
+    """affine.load through an n-dimensional map with 1–3 results on a static memref passed as argument:
+    (program, model line, implementation line)"""
+    from xdsl.dialects import affine, memref
+
+    n = rng.randint(1, 3)
+    k = rng.randint(1, 3)
+    es = [gen.random_expr(n, 0, rng.randint(0, 2)) for _ in range(k)]
+    ty = "memref<" + "x".join(["4"] * k) + "xindex>"
+    order = rng.sample(range(n), n)
+    dims = ", ".join(f"d{i}" for i in range(n))
+    text = ("builtin.module {\nfunc.func @main(%m: " + ty + "".join(f", %a{i}: index" for i in range(n)) + ") -> (index) {\n"
+            f'  %l = "affine.load"(%m, {", ".join(f"%a{i}" for i in order)}) <{{"map" = affine_map<({dims}) -> ({", ".join(proggen.aff_text(e) for e in es)})>}}> '
+            f': ({ty}, {", ".join(["index"] * n)}) -> index\n  func.return %l : index\n}}\n}}\n')
+    m0, _ = proggen.parse_module_ctx(text)
+    ld = next(o for o in m0.walk() if isinstance(o, affine.LoadOp))
+    line = f"map {n} " + " | ".join(proggen.aff_prefix_of_xdsl(e) for e in ld.map.data.results)
+    m, exc = apply(text, "lower-affine")
+    if m is None:
+        return text, line, "raise " + str(exc)
+    try:
+        m.verify()
+    except Exception as e:  # noqa: BLE001
+        return text, line, "invalid " + core.exc_name(e)
+    main, ops = main_ops(m)
+    args = list(main.body.blocks.first.args)[1:]
+    load = next(o for o in ops if isinstance(o, memref.LoadOp))
+    return text, line, listing(ops[: ops.index(load)], [args[i] for i in order], list(load.indices))
+
+
+def run_lower_affine(ctx: core.Ctx) -> None:
+    gen = proggen.AffineBindGen(ctx.rng)
+    lines: list[str] = []
+    expect: list[tuple[str, str, str]] = []       # (program, model line, implementation line)
+    shapes = [(a, b) for a in range(4) for b in range(4) if a + b]
+    per_shape = 6 if ctx.tier == "quick" else 40
+    for nd, ns in shapes:
+        for rep in range(per_shape):
+            e = gen.linear(nd, ns) if rep % 3 != 2 else gen.random_expr(nd, ns, ctx.rng.randint(1, 3))
+            p = gen.apply_program((nd, ns), e)
+            line, impl, prefix = apply_case(p)
+            ctx.ev(); ctx.count(f"model.lower_affine.apply.{nd}d{ns}s")
+            if nd and ns and nd != ns:
+                ctx.nt(("lower_affine", p["text"]))
+            lines.append(line)
+            expect.append((p["text"], line, impl))
+            if not impl.startswith("ok "):
+                continue        # the pass refused (or left invalid IR): shown by the correspondence below
+            for vec in p["vecs"]:
+                xs = [vec[i] for i in p["order"]]
+                want = proggen.aff_eval(e, xs[:nd], xs[nd:])
+                got = run_listing(impl, xs)
+                ctx.ev()
+                if want is None:
+                    ctx.count("model.lower_affine.value.undefined")
+                    continue
+                lines.append(f"value {nd} {ns} {','.join(map(str, xs))} {prefix}")
+                expect.append((p["text"], lines[-1], f"affine {want[0]} lowered {got if got is not None else 'stuck'}"))
+                if want[1]:
+                    ctx.count("model.lower_affine.value.mod_of_negative")      # known finding (mod → remsi): judged by leg A
+                    continue
+                if got != want[0]:
+                    ctx.fail(SITE_APPLY, "affine.apply lowered to operations that compute a different value",
+                             {"program": p["text"], "passes": ["lower-affine"], "arg_types": p["arg_types"], "args": [repr(v) for v in vec]},
+                             f"affine.apply of {proggen.aff_text(e)} on dims {xs[:nd]} symbols {xs[nd:]} is {want[0]}; the emitted operations "
+                             f"[{impl[3:]}] on the same operands give {got}", impl, want[0])
+    for _ in range(25 if ctx.tier == "quick" else 400):
+        text, line, impl = map_case(ctx.rng, gen)
+        ctx.ev(); ctx.count("model.lower_affine.map")
+        lines.append(line)
+        expect.append((text, line, impl))
+    outs = ctx.model("lower_affine", lines)
+    for (text, line, impl), out in zip(expect, outs):
+        if out == "bad-op":
+            raise core.InfraError("lower_affine model rejected line: " + line)
+        if impl != out:
+            ctx.mismatch("correspondence:C16/lower_affine", {"line": line, "program": text, "model": "lower_affine"}, impl, out,
+                         f"real pass and Lean model `lower_affine` disagree on `{line}`")
+    ctx.extra.setdefault("model_correspondence", {})["lower_affine"] = {
+        "lines": len(lines),
+        "scope": "affine.apply: every (num_dims, num_symbols) ≤ (3, 3), operands permuted, weighted-sum and random expressions — emitted "
+                 "operations and operand binding; affine.load: 1–3 dims × 1–3 results"}
 
 
 def replay(ctx: core.Ctx, body: dict) -> int:
     case = body["case"]
     print("model line:", case.get("line"))
-    print("lean model :", ctx.model("loops", [case["line"]]))
+    print("lean model :", ctx.model(case.get("model", "loops"), [case["line"]]))
     print("recorded implementation observation:", body.get("impl_observation"))
     print("program:\n" + case.get("program", ""))
     return 0
